@@ -1,8 +1,309 @@
-(** Proofs about the situation-builder model (model/Builder.v). *)
-From Coq Require Import ZArith QArith List Bool String Lia.
+(** Proofs about the situation-builder model (model/Builder.v).
+    Part 1: the build depends on the texts of period keys only through their canonical form
+    (spelling irrelevance).  Part 2: the flush order.  Part 3: rejection of ill-formed items.
+    Part 4: what a successful build stores (ids, memberships, values).  Part 5: axes. *)
+From Coq Require Import ZArith QArith List Bool String Lia Permutation Sorted.
 From Verif Require Import Base Cal Tables Period Builder.
 Import ListNotations.
 Open Scope Z_scope.
+Open Scope res_scope.
 
-Lemma canon_key_eternity : forall s, canon_key (KEternity s) = Ok eternity_period.
-Proof. reflexivity. Qed.
+(** * Generic *)
+
+Lemma bind_ext {A B} (r : res A) (f g : A -> res B) :
+  (forall a, f a = g a) -> bind r f = bind r g.
+Proof. intros H. destruct r; cbn; [apply H | reflexivity]. Qed.
+
+Lemma bind_ok {A B} (r : res A) (f : A -> res B) b :
+  bind r f = Ok b -> exists a, r = Ok a /\ f a = Ok b.
+Proof. destruct r; cbn; intros H; [eauto | discriminate]. Qed.
+
+Lemma bind_err {A B} (r : res A) (f : A -> res B) e :
+  r = Err e -> bind r f = Err e.
+Proof. intros ->. reflexivity. Qed.
+
+(** * 1. Spelling irrelevance *)
+
+Definition same_reading (x x' : ext) : Prop :=
+  (forall t, canon_key (tok x t) = canon_key (tok x' t)) /\
+  (forall t, date_of_text x t = date_of_text x' t) /\
+  (forall t, evalx x t = evalx x' t) /\
+  (forall l, set_order x l = set_order x' l).
+
+Lemma parse_start_err s e : parse_start s = Err e -> e = EPeriod.
+Proof.
+  destruct s; cbn; intros H;
+    match type of H with (if ?c then _ else _) = _ => destruct c end; congruence.
+Qed.
+
+Lemma parse_key_err k e : parse_key k = Err e -> e = EPeriod.
+Proof.
+  destruct k as [s|u s size|sp|]; cbn; intros H; try congruence.
+  - destruct (parse_start s) eqn:E; cbn in H; [discriminate|].
+    inversion H; subst. eapply parse_start_err; eassumption.
+  - destruct (unit_eqb u Eternity); [congruence|].
+    destruct (parse_start s) eqn:E; cbn in H.
+    + destruct (unit_weight u <? unit_weight (fst a)); congruence.
+    + inversion H; subst. eapply parse_start_err; eassumption.
+Qed.
+
+Lemma canon_err p e : canon p = Err e -> e = EUnmodelled.
+Proof.
+  destruct p as [[u [[y m] d]] n]. unfold canon. intros H.
+  destruct u; try discriminate;
+    (destruct ((n <=? 0) || (y <? 1000)); [inversion H; reflexivity|]); try discriminate.
+  destruct (n =? 12); discriminate.
+Qed.
+
+Lemma EUnmodelled_neq_EPeriod : EUnmodelled <> EPeriod.
+Proof. discriminate. Qed.
+
+(* the canonical form decides whether the key parses at all *)
+Lemma canon_key_parse_ok k k' :
+  canon_key k = canon_key k' ->
+  match parse_key k, parse_key k' with
+  | Ok _, Ok _ | Err _, Err _ => True
+  | _, _ => False
+  end.
+Proof.
+  unfold canon_key. intros H.
+  destruct (parse_key k) eqn:E, (parse_key k') eqn:E'; cbn in H; auto.
+  - destruct (canon a) eqn:C; [discriminate|].
+    apply canon_err in C. apply parse_key_err in E'. subst. unfold EUnmodelled in H. discriminate.
+  - destruct (canon a) eqn:C; [discriminate|].
+    apply canon_err in C. apply parse_key_err in E. subst. unfold EUnmodelled in H. discriminate.
+Qed.
+
+Section Reading.
+  Variables x x' : ext.
+  Hypothesis R : same_reading x x'.
+
+  Let Rk := proj1 R.
+  Let Rd := proj1 (proj2 R).
+  Let Re := proj1 (proj2 (proj2 R)).
+  Let Ro := proj2 (proj2 (proj2 R)).
+
+  Lemma check_set_value_reading v j : check_set_value x v j = check_set_value x' v j.
+  Proof.
+    unfold check_set_value. destruct (v_type v), j; try reflexivity;
+      rewrite ?Rd, ?Re; reflexivity.
+  Qed.
+
+  Lemma add_variable_value_reading st e v idx t value :
+    add_variable_value x st e v idx t value = add_variable_value x' st e v idx t value.
+  Proof.
+    unfold add_variable_value. destruct value; try reflexivity;
+      rewrite Rk; apply bind_ext; intros p; rewrite check_set_value_reading; reflexivity.
+  Qed.
+
+  Lemma add_dated_reading e v idx l : forall st,
+    add_dated x st e v idx l = add_dated x' st e v idx l.
+  Proof.
+    induction l as [|[t value] l IH]; intros st; cbn [add_dated]; [reflexivity|].
+    pose proof (canon_key_parse_ok _ _ (Rk t)) as P.
+    destruct (parse_key (tok x t)), (parse_key (tok x' t)); try contradiction; [|reflexivity].
+    rewrite add_variable_value_reading. apply bind_ext; intros st'. apply IH.
+  Qed.
+
+  Lemma init_variable_values_reading s e id fields : forall st,
+    init_variable_values x s st e fields id = init_variable_values x' s st e fields id.
+  Proof.
+    induction fields as [|[vn vals] fields IH]; intros st; cbn [init_variable_values]; [reflexivity|].
+    destruct (find_var vn (s_vars s)); [|reflexivity].
+    destruct (negb (String.eqb (v_entity v) (e_key e))); [reflexivity|].
+    destruct (index_of id (get_ids st (e_plural e))); [|reflexivity].
+    destruct vals; try reflexivity.
+    rewrite add_dated_reading. apply bind_ext; intros st'. apply IH.
+  Qed.
+
+  Lemma add_person_instances_reading s l : forall st,
+    add_person_instances x s st l = add_person_instances x' s st l.
+  Proof.
+    induction l as [|[pid j] l IH]; intros st; cbn [add_person_instances]; [reflexivity|].
+    destruct j; try reflexivity.
+    rewrite init_variable_values_reading. apply bind_ext; intros st'. apply IH.
+  Qed.
+
+  Lemma add_group_instances_reading s e pids eids l : forall st todo mr,
+    add_group_instances x s e pids eids l st todo mr
+    = add_group_instances x' s e pids eids l st todo mr.
+  Proof.
+    induction l as [|[gid j] l IH]; intros st todo mr; cbn [add_group_instances]; [reflexivity|].
+    destruct j; try reflexivity.
+    apply bind_ext; intros todo'.
+    destruct (index_of gid eids); [|reflexivity].
+    apply bind_ext; intros mr'.
+    rewrite init_variable_values_reading. apply bind_ext; intros st'. apply IH.
+  Qed.
+
+  Lemma add_group_entity_reading s st pids e j :
+    add_group_entity x s st pids e j = add_group_entity x' s st pids e j.
+  Proof.
+    unfold add_group_entity. destruct j; try reflexivity.
+    rewrite add_group_instances_reading. apply bind_ext; intros [[st1 todo] mr].
+    destruct todo; [reflexivity|]. rewrite Ro. reflexivity.
+  Qed.
+
+  Lemma add_groups_reading s pids params ax gs : forall st,
+    add_groups x s st pids params ax gs = add_groups x' s st pids params ax gs.
+  Proof.
+    induction gs as [|e gs IH]; intros st; cbn [add_groups]; [reflexivity|].
+    destruct (aget (e_plural e) params) as [j|].
+    - rewrite add_group_entity_reading.
+      destruct j; (apply bind_ext; intros st'; apply IH).
+    - apply bind_ext; intros st'; apply IH.
+  Qed.
+
+  Lemma apply_axis_reading s st step cells vals a :
+    apply_axis x s st step cells vals a = apply_axis x' s st step cells vals a.
+  Proof.
+    unfold apply_axis. apply bind_ext; intros t. rewrite Rk. reflexivity.
+  Qed.
+
+  Lemma apply_axes_reading s step cells valsf l : forall st,
+    apply_axes x s st step cells valsf l = apply_axes x' s st step cells valsf l.
+  Proof.
+    induction l as [|a l IH]; intros st; cbn [apply_axes]; [reflexivity|].
+    rewrite apply_axis_reading. apply bind_ext; intros st'. apply IH.
+  Qed.
+
+  Lemma apply_dims_reading s counts cells dims : forall st d,
+    apply_dims x s st counts cells d dims = apply_dims x' s st counts cells d dims.
+  Proof.
+    induction dims as [|dim dims IH]; intros st d; cbn [apply_dims]; [reflexivity|].
+    apply bind_ext; intros step.
+    destruct (dim_count dim <=? 1); [reflexivity|].
+    rewrite apply_axes_reading. apply bind_ext; intros st'. apply IH.
+  Qed.
+
+  Lemma expand_axes_reading s st dims : expand_axes x s st dims = expand_axes x' s st dims.
+  Proof.
+    unfold expand_axes. destruct (cell_count dims <=? 0); [reflexivity|].
+    destruct dims as [|dim [|dim' dims]].
+    - apply apply_dims_reading.
+    - apply bind_ext; intros step. apply apply_axes_reading.
+    - apply apply_dims_reading.
+  Qed.
+
+  Lemma axes_step_reading s st2 (o : option json) :
+    match o with
+    | None => Ok st2
+    | Some j => let* dims := parse_dims j in expand_axes x s st2 dims
+    end
+    = match o with
+      | None => Ok st2
+      | Some j => let* dims := parse_dims j in expand_axes x' s st2 dims
+      end.
+  Proof.
+    destruct o; [|reflexivity]. apply bind_ext; intros dims. apply expand_axes_reading.
+  Qed.
+
+  Lemma build_from_entities_reading s doc :
+    build_from_entities x s doc = build_from_entities x' s doc.
+  Proof.
+    unfold build_from_entities.
+    destruct (existsb _ (aremove "axes" doc)); [reflexivity|].
+    destruct (aget (e_plural (s_person s)) (aremove "axes" doc)) as [j|]; [|reflexivity].
+    destruct j as [| | | | | |l]; try reflexivity.
+    destruct l as [|i instances]; [reflexivity|].
+    unfold add_person_entity. rewrite add_person_instances_reading.
+    apply bind_ext; intros st1.
+    rewrite add_groups_reading. apply bind_ext; intros st2.
+    rewrite axes_step_reading. reflexivity.
+  Qed.
+End Reading.
+
+(** Variables-only documents do not go through the canonical text: the reading must agree on
+    the parsed period itself. *)
+Definition same_parse (x x' : ext) : Prop :=
+  (forall t, parse_key (tok x t) = parse_key (tok x' t)) /\
+  (forall t, date_of_text x t = date_of_text x' t) /\
+  (forall t, evalx x t = evalx x' t) /\
+  (forall l, set_order x l = set_order x' l).
+
+Lemma same_parse_reading x x' : same_parse x x' -> same_reading x x'.
+Proof.
+  intros (Hp & Hd & He & Ho). repeat split; auto.
+  intros t. unfold canon_key. rewrite Hp. reflexivity.
+Qed.
+
+Section Parse.
+  Variables x x' : ext.
+  Hypothesis R : same_parse x x'.
+  Let Rp := proj1 R.
+  Let Rd := proj1 (proj2 R).
+  Let Re := proj1 (proj2 (proj2 R)).
+
+  Lemma convert_elem_parse v sc j : convert_elem x v sc j = convert_elem x' v sc j.
+  Proof.
+    unfold convert_elem. destruct (v_type v), j; try reflexivity;
+      rewrite ?Rd, ?Re; reflexivity.
+  Qed.
+
+  Lemma mapM_ext {A B} (f g : A -> res B) l : (forall a, f a = g a) -> mapM f l = mapM g l.
+  Proof.
+    intros H. induction l as [|a l IH]; cbn; [reflexivity|]. rewrite H, IH. reflexivity.
+  Qed.
+
+  Lemma convert_value_parse v j : convert_value x v j = convert_value x' v j.
+  Proof.
+    unfold convert_value. destruct j; try (rewrite convert_elem_parse; reflexivity).
+    destruct l as [|j0 l]; [reflexivity|].
+    destruct (forallb _ l); [|reflexivity].
+    apply mapM_ext. intros a. apply convert_elem_parse.
+  Qed.
+
+  Lemma sim_set_input_parse s count hs vn t value :
+    sim_set_input x s count hs vn t value = sim_set_input x' s count hs vn t value.
+  Proof.
+    unfold sim_set_input. destruct (find_var vn (s_vars s)); [|reflexivity].
+    rewrite Rp. apply bind_ext; intros p. apply bind_ext; intros sk.
+    destruct sk; [reflexivity|].
+    destruct (unit_eqb (p_unit p) Eternity && negb (eternal v)); [reflexivity|].
+    rewrite convert_value_parse. reflexivity.
+  Qed.
+
+  Lemma set_dated_parse s count vn l : forall hs,
+    set_dated x s count hs vn l = set_dated x' s count hs vn l.
+  Proof.
+    induction l as [|[p [t value]] l IH]; intros hs; cbn [set_dated]; [reflexivity|].
+    rewrite sim_set_input_parse. apply bind_ext; intros hs'. apply IH.
+  Qed.
+
+  Lemma add_dated_values_parse s count doc : forall hs,
+    add_dated_values x s count hs doc = add_dated_values x' s count hs doc.
+  Proof.
+    induction doc as [|[vn j] doc IH]; intros hs; cbn [add_dated_values]; [reflexivity|].
+    destruct j; try apply IH.
+    rewrite (mapM_ext _ (fun kv => let* p := parse_key (tok x' (fst kv)) in Ok (p, kv))).
+    2:{ intros kv. rewrite Rp. reflexivity. }
+    apply bind_ext; intros keyed. rewrite set_dated_parse.
+    apply bind_ext; intros hs'. apply IH.
+  Qed.
+
+  Lemma build_from_dict_parse s input : build_from_dict x s input = build_from_dict x' s input.
+  Proof.
+    pose proof (same_parse_reading _ _ R) as R'.
+    unfold build_from_dict. destruct input; try reflexivity.
+    destruct (existsb _ (map fst l)); [apply build_from_entities_reading; assumption|].
+    destruct (_ && _); [apply build_from_entities_reading; assumption|].
+    destruct (_ || _); [|apply build_from_entities_reading; assumption].
+    unfold build_from_variables. rewrite add_dated_values_parse. reflexivity.
+  Qed.
+End Parse.
+
+(** every shape that names entities goes through [build_from_entities] *)
+Lemma build_from_dict_reading x x' s doc :
+  same_reading x x' ->
+  existsb (fun k => match find_var k (s_vars s) with Some _ => true | None => false end)
+          (map fst doc) = false ->
+  doc <> [] ->
+  build_from_dict x s (JObj doc) = build_from_dict x' s (JObj doc).
+Proof.
+  intros R Hv Hne. unfold build_from_dict.
+  destruct (existsb (fun k => mem_str k (singulars s)) (map fst doc));
+    [apply build_from_entities_reading; assumption|].
+  destruct (_ && _); [apply build_from_entities_reading; assumption|].
+  rewrite Hv. destruct doc; [contradiction|]. cbn [List.length Nat.eqb orb].
+  apply build_from_entities_reading; assumption.
+Qed.
